@@ -358,7 +358,7 @@ func engineC06(c *vctx) error {
 				f := append(rng.bytes(pad), c06Seal(k, c06Nonce(rng), pt)...)
 				emitCL(kind+"/sealed-malformed", nil, false, false, f, int64(len(f)))
 			}
-			for _, cut := range []int{1, 4, 5, 9, 28, 31, 32, 33, 36, 37, 40, 41, 1 + rng.intn(45)} {
+			for _, cut := range []int{1, 2, 3, 4, 5, 9, 28, 31, 32, 33, 36, 37, 40, 41, 1 + rng.intn(45)} {
 				if cut <= len(hdrPlain) {
 					reseal(hdrPlain[:len(hdrPlain)-cut], 80)
 				}
@@ -535,7 +535,7 @@ func engineC06(c *vctx) error {
 		c.Case(kind, true, int(np+nc), term, fmt.Sprintf("%s: plain=%d comp=%d stop=%d finalize=%s listed=%d hdr=%d", kind, np, nc, stop, c06Fres(err, panicked), listed, hs))
 	}
 	for pat := 0; pat <= 3; pat++ {
-		if (pat == 3 || pat == 1) && !c.thorough() {
+		if (pat == 3 || pat == 2) && !c.thorough() {
 			continue
 		}
 		runCF("header-full/fill", false, 0, 0, pat)
